@@ -1,0 +1,16 @@
+//go:build verif && !verifnonode && !verifnoraw
+
+package art
+
+// Verification hooks (build tag "verif"): raw access to the in-node search
+// primitives. Kept apart from verif_node.go so that the bare-node hook still builds
+// (tag "verifnoraw") if a primitive changes its signature.
+
+func VerifSearchNode4(keys uint32, b byte) int    { return searchNode4(keys, b) }
+func VerifInsertPosNode4(keys uint32, b byte) int { return insertPosNode4(keys, b) }
+func VerifSearchNode16(keys *[16]byte, n uint8, b byte) int {
+	return searchNode16(keys, n, b)
+}
+func VerifInsertPosNode16(keys *[16]byte, n uint8, b byte) int {
+	return insertPosNode16(keys, n, b)
+}
